@@ -482,16 +482,12 @@ class SwitchController(MpfController):
             self._timed_switch_handler_delay[switch] = (handler, next_event_time)
 
     def _call_handlers(self, switch, state):
-        for entry in self.registered_switches[switch][state][:]:  # generator?
-            # Found an entry.
-
-            # skip if the handler has been removed in the meantime
-            if entry.cancelled:
-                continue
-
+        entries = self.registered_switches[switch][state][:]
+        # First add all timed entries to our active timed switch list. The
+        # callbacks below may change this switch again and that has to cancel
+        # all of them (and not only those in front of the callback).
+        for entry in entries:
             if entry.ms:
-                # This entry is for a timed switch, so add it to our
-                # active timed switch list
                 key = switch.last_change + (entry.ms / 1000.0)
                 value = TimedSwitchHandler(callback=entry.callback,
                                            state=state,
@@ -501,10 +497,14 @@ class SwitchController(MpfController):
                     self.debug_log(
                         "Found timed switch handler for k/v %s / %s",
                         key, value)
-            else:
-                # This entry doesn't have a timed delay, so do the action
-                # now
-                entry.callback()
+
+        for entry in entries:
+            # skip if the handler has been removed in the meantime
+            if entry.cancelled or entry.ms:
+                continue
+
+            # This entry doesn't have a timed delay, so do the action now
+            entry.callback()
 
     def add_monitor(self, monitor: Callable[[MonitoredSwitchChange], None]):
         """Add a monitor callback which is called on switch changes."""
